@@ -88,6 +88,40 @@ func (in *Interp) feasible(c *smt.Term) smt.Result {
 	return r
 }
 
+// uniqueValue returns the constant a term is forced to by the path condition, if there is exactly
+// one (two solver queries: a model, then "can it differ"). No decision is recorded.
+func (in *Interp) uniqueValue(t *smt.Term) (*smt.Term, bool) {
+	if t.IsConst() {
+		return t, true
+	}
+	p := in.p
+	if p == nil || in.initing > 0 || t.W == 0 {
+		return nil, false
+	}
+	var m map[string]uint64
+	if p.model != nil {
+		m = p.model
+	} else {
+		in.flushPC()
+		r, mm := in.sol.Check(in.tb.Bool(true), in.nondetVars())
+		if r != smt.Sat {
+			return nil, false
+		}
+		if mm == nil {
+			mm = map[string]uint64{}
+		}
+		m = mm
+	}
+	if smt.HasUF(t, map[int]bool{}) {
+		return nil, false
+	}
+	v := in.tb.BV(t.W, smt.Eval(t, m, map[int]uint64{}))
+	if in.feasible(in.tb.Not(in.tb.Eq(t, v))) == smt.Unsat {
+		return v, true
+	}
+	return nil, false
+}
+
 // choose makes an n-way decision among mutually exclusive, exhaustive conditions.
 func (in *Interp) choose(conds []*smt.Term) int {
 	p := in.p
